@@ -5,11 +5,14 @@
    Conventions as in Model/Sweep.v: numbers are an arbitrary type K with ring operations (laws are
    hypotheses of the proof file only), values V := X -> K pointwise, node-indexed data are functions
    nat -> _ with functional update `upd`; index 0 is the initial value.
-   The level holds particles u[m] = (pos, vel), m = 0..M, and "fields" f[m] of an ARBITRARY type Fd
-   (what P.eval_f returns); the problem contributes three arbitrary functions
-       feval   pos vel t          = P.eval_f(u, t)
-       build_f fld pos vel t      = P.build_f(f, u, t)      (acceleration from fields and a particle)
-       boris   c dt fold fnew pos0 vel0 = P.boris_solver(c, dt, f_old, f_new, u_old)   (new velocity)
+   The level holds particle objects u[m] = (attr, pos, vel), m = 0..M — attr : A is everything else a particle
+   object carries (charges q, masses m), an ARBITRARY type — and "fields" f[m] of an ARBITRARY type Fd
+   (what P.eval_f returns); the problem contributes three arbitrary functions of whole particle objects
+       feval   attr pos vel t          = P.eval_f(u, t)
+       build_f fld attr pos vel t      = P.build_f(f, u, t)      (acceleration from fields and a particle)
+       boris   c dt fold fnew attr0 pos0 vel0 = P.boris_solver(c, dt, f_old, f_new, u_old)   (new velocity)
+   `rhs = P.dtype_u(L.u[0])` copies u[0]'s attributes and `L.u[m+1] = rhs` REPLACES the node object, so every
+   stage and uend carry u0's attributes whatever object (e.g. predict()'s unit-charge zero particles) sat there.
    get_full_f is the identity on the admissible types (particles, fields, acceleration) and raises
    otherwise; it is modelled as the identity (the harness checks the raising branch on the real class).
 
@@ -32,57 +35,60 @@ Import ListNotations.
 
 Section RKNModel.
   Context {K : Type} (kO : K) (kadd kmul : K -> K -> K).
-  Context {X : Type} {Fd : Type}.
+  Context {X : Type} {Fd : Type} {A : Type}.
   Notation V := (X -> K).
   Variable M : nat.
   Variable dt t0 : K.
   Variable nodes : nat -> K.
   Variable QI Qx : nat -> nat -> K.
   Variable implicit : bool.
-  Variable feval : V -> V -> K -> Fd.
-  Variable build_f : Fd -> V -> V -> K -> V.
-  Variable boris : V -> K -> Fd -> Fd -> V -> V -> V.
+  Variable feval : A -> V -> V -> K -> Fd.
+  Variable build_f : Fd -> A -> V -> V -> K -> V.
+  Variable boris : V -> K -> Fd -> Fd -> A -> V -> V -> V.
 
   Notation "a +v b" := (vadd kadd a b) (at level 50, left associativity).
   Notation "c *v a" := (vscale kmul c a) (at level 40).
 
-  (* level state: positions, velocities, fields per node *)
-  Record rkn_st := { rp : nat -> V; rv : nat -> V; rf : nat -> Fd }.
+  (* level state: particle attributes, positions, velocities, fields per node *)
+  Record rkn_st := { ra : nat -> A; rp : nat -> V; rv : nat -> V; rf : nat -> Fd }.
 
   Definition rkn_tn (j : nat) : K := kadd t0 (kmul dt (nodes j)).      (* L.time + L.dt * coll.nodes[j] *)
 
   (* body of `for j in range(1, m + 1)`: acts on (rhs.pos, rhs.vel, L.f) *)
-  Definition rkn_inner_step (m : nat) (p v : nat -> V) (acc : V * V * (nat -> Fd)) (j : nat)
+  Definition rkn_inner_step (m : nat) (a : nat -> A) (p v : nat -> V) (acc : V * V * (nat -> Fd)) (j : nat)
     : V * V * (nat -> Fd) :=
     let '(rpos, rvel, f) := acc in
-    let a := build_f (f j) (p j) (v j) (rkn_tn j) in                       (* f = P.build_f(L.f[j], L.u[j], t_j) *)
-    let rpos' := rpos +v (kmul (kmul dt dt) (Qx (S m) j)) *v a in            (* rhs.pos += dt**2 * Qx[m+1,j] * f *)
+    let ac := build_f (f j) (a j) (p j) (v j) (rkn_tn j) in                (* f = P.build_f(L.f[j], L.u[j], t_j) *)
+    let rpos' := rpos +v (kmul (kmul dt dt) (Qx (S m) j)) *v ac in           (* rhs.pos += dt**2 * Qx[m+1,j] * f *)
     if implicit then
       let ck : V := fun x => kmul (rvel x) kO in                             (* ck = rhs.vel * 0.0 *)
-      let f' := upd f 3 (feval rpos' rvel (kadd t0 dt)) in                   (* L.f[3] = P.eval_f(rhs, L.time + L.dt) *)
-      (rpos', boris ck dt (f' 0) (f' 3) (p 0) (v 0), f')                     (* rhs.vel = P.boris_solver(ck, dt, L.f[0], L.f[3], L.u[0]) *)
+      let f' := upd f 3 (feval (a 0) rpos' rvel (kadd t0 dt)) in             (* L.f[3] = P.eval_f(rhs, L.time + L.dt); rhs has u[0]'s attributes *)
+      (rpos', boris ck dt (f' 0) (f' 3) (a 0) (p 0) (v 0), f')                   (* rhs.vel = P.boris_solver(ck, dt, L.f[0], L.f[3], L.u[0]) *)
     else
-      (rpos', rvel +v (kmul dt (QI (S m) j)) *v a, f).                       (* rhs.vel += dt * QI[m+1,j] * f *)
+      (rpos', rvel +v (kmul dt (QI (S m) j)) *v ac, f).                      (* rhs.vel += dt * QI[m+1,j] * f *)
 
   (* body of `for m in range(0, M)` *)
   Definition rkn_stage (st : rkn_st) (m : nat) : rkn_st :=
+    let a := ra st in
     let p := rp st in
     let v := rv st in
     let rpos0 := p 0 +v (kmul dt (nodes (S m))) *v v 0 in                   (* rhs = u[0]; rhs.pos += dt*nodes[m+1]*u[0].vel *)
-    let '(rpos, rvel, f1) := fold_left (rkn_inner_step m p v) (seq 1 m) (rpos0, v 0, rf st) in
-    let p' := upd p (S m) rpos in                                           (* L.u[m+1] = rhs *)
+    let '(rpos, rvel, f1) := fold_left (rkn_inner_step m a p v) (seq 1 m) (rpos0, v 0, rf st) in
+    let a' := upd a (S m) (a 0) in                                          (* L.u[m+1] = rhs: the node OBJECT is replaced by the copy of u[0] *)
+    let p' := upd p (S m) rpos in
     let v' := upd v (S m) rvel in
     let f' :=
       if implicit then
-        let f2 := upd f1 0 (feval (p' 0) (v' 0) t0) in                       (* L.f[0] = P.eval_f(L.u[0], L.time) *)
+        let f2 := upd f1 0 (feval (a' 0) (p' 0) (v' 0) t0) in                      (* L.f[0] = P.eval_f(L.u[0], L.time) *)
         upd f2 (S m) (f2 0)                                                  (* L.f[m+1] = P.dtype_f(L.f[0]) *)
       else if Nat.eqb m (M - 1) then f1                                     (* if m != num_nodes - 1: *)
-      else upd f1 (S m) (feval rpos rvel (rkn_tn (S m)))                    (*   L.f[m+1] = P.eval_f(L.u[m+1], t0 + dt*nodes[m+1]) *)
-    in {| rp := p'; rv := v'; rf := f' |}.
+      else upd f1 (S m) (feval (a' (S m)) rpos rvel (rkn_tn (S m)))                 (*   L.f[m+1] = P.eval_f(L.u[m+1], t0 + dt*nodes[m+1]) *)
+    in {| ra := a'; rp := p'; rv := v'; rf := f' |}.
 
   (* update_nodes() *)
   Definition rkn_update (st : rkn_st) : rkn_st := fold_left rkn_stage (seq 0 M) st.
 
   (* compute_end_point(): self.level.uend = self.level.u[-1] *)
   Definition rkn_end_point (st : rkn_st) : V * V := (rp st M, rv st M).
+  Definition rkn_end_attr (st : rkn_st) : A := ra st M.
 End RKNModel.
